@@ -506,7 +506,8 @@ def label (s : State) (a : Nat) : String :=
   | .hWake .. => "wake"
   | _ => "-"
 
-/-- F17: a finished / dropped / idle agent still owns an enqueued WAITING receiver record -/
+/-- a finished / dropped / idle agent still owns an enqueued WAITING receiver record (finding F17; unreachable in
+the model since fix cd494c8 — kept as a diagnostic: `sawStale` is reported in the mismatch line) -/
 def stale (s : State) (agents : List Nat) : Bool :=
   (s.war ++ s.wsr).any (fun r => decide (s.st r = .waiting) &&
     (match s.pc (s.owner r) with
@@ -665,13 +666,15 @@ def finish (st : St) : Except String (List String) :=
              (if st.status.startsWith "deadlock" then ["deadlock-case"] else []))
       | .budget => .ok ["search-budget"]
       | .notFound =>
-        if vis.sawStale then .ok ["known-F17-stale-waiter-record-UB"] else
+        -- (until fix cd494c8 of finding F17 a history past a dangling WAITING record — `sawStale` — was excused here as
+        -- undefined behaviour; the repaired model has no such state (`mpmc2_no_dangling_waiter_record`), so an
+        -- unexplained history is a mismatch whatever was explored)
         if ip.f3 then .ok ["known-F3-conversion-of-closed-handle"] else
         let evDesc := match evs[vis.maxI]? with
           | some (.call it) => s!"C tid={it.tid} expect={it.expect.getD "-"}"
           | some (.ret tid) => s!"R tid={tid}"
           | none => "end"
-        .error s!"model=no-run-of-the-B-model-explains-this-history status={st.status} stuck-at-event={vis.maxI} [{evDesc}] explored={vis.count}"
+        .error s!"model=no-run-of-the-B-model-explains-this-history status={st.status} stuck-at-event={vis.maxI} [{evDesc}] explored={vis.count}{if vis.sawStale then " saw-dangling-waiter-record" else ""}"
 
 def engine : Engine St := { init := init, step := step, finish := finish }
 
